@@ -1070,6 +1070,14 @@ func ruleC10O17(r *Run) {
 				first = t
 			}
 		}
+		if first == nil && len(tests) > 0 {
+			first = tests[0] // no single first test: any of them serves to ask whether one is made at entry
+			for _, t := range tests {
+				if t.Block().Index < first.Block().Index {
+					first = t
+				}
+			}
+		}
 		if first == nil {
 			continue
 		}
@@ -1084,7 +1092,23 @@ func ruleC10O17(r *Run) {
 			return isCallNamed(x, "/iscp.connStatus.WaitUntil", "/iscp.connStatus.WaitUntilOrClosed", "/iscp.streamState.WaitUntil", "sync.Cond.Wait")
 		}
 		if reachesFromEntryWithout(fn, func(x ssa.Instruction) bool { return x == ssa.Instruction(first) }, blocking) == nil {
+			// a stream method that can report ErrStreamClosed only from inside its wait: called after Close it selects
+			// over "closed" and whatever else is ready, and returns a buffered item with a nil error every other time
+			if rn := recvTypeName(fn); rn == "Upstream" || rn == "Downstream" {
+				sel := false
+				allInstrs(fn, func(x ssa.Instruction) {
+					if y, isSel := x.(*ssa.Select); isSel && y.Blocking {
+						sel = true
+					}
+				})
+				if sel {
+					r.Check(fnName(fn)+" tests closed at entry", false, posOf(p, first), fnName(fn), "the method reports ErrStreamClosed only from a branch of its select: after Close has returned, a call finds the closed stream AND a buffered item ready and succeeds about half of the time instead of failing")
+				}
+			}
 			continue
+		}
+		if rn := recvTypeName(fn); rn == "Upstream" || rn == "Downstream" {
+			r.Check(fnName(fn)+" tests closed at entry", true, posOf(p, first), fnName(fn), "closed is tested before anything that can wait")
 		}
 		// only tests made before anything else happens count as "the method refuses when closed": the test block is
 		// reached from the entry without a call that blocks or sends
